@@ -225,10 +225,11 @@ def judge(ctx, case, out, reply):
     (m_asg, m_obj, m_iters, m_evals, m_u, m_v, stuck, rect, chk_model, impl_valid, impl_chk, impl_obj) = reply
     if not rect:
         raise core.Infra("generator produced a ragged matrix")
-    if stuck or not chk_model:
+    if stuck or (not chk_model and min(r, c) > 0):
         # contradicts `hungarian_certifies`; without a certificate nothing can be decided
         raise core.Infra(f"mirror produced no valid certificate on {case}")
-    ctx.count("cert_checked_model")
+    if min(r, c) > 0:
+        ctx.count("cert_checked_model")
     ctx.count("sense:" + sense)
     ctx.count("shape:" + ("empty" if n == 0 or min(r, c) == 0 else "square" if r == c else "wide" if r < c else "tall"))
     ctx.count(f"n:{n}")
